@@ -249,6 +249,9 @@ func (z *Sym) of(v ssa.Value, d int) lin.Form {
 			if e, ef, ok := fieldLoad(x, z.frame); ok {
 				return z.in(ef, func() lin.Form { return z.of(e, d+1) })
 			}
+			if e, ef, ok := cellLoadValue(x, z.frame); ok {
+				return z.in(ef, func() lin.Form { return z.of(e, d+1) })
+			}
 			// an element of an integer table filled by a counted loop (cells.go)
 			if f, ok := z.intTableLoad(x); ok {
 				return f
@@ -338,6 +341,9 @@ func (z *Sym) lenOf(v ssa.Value, d int) lin.Form {
 				return z.in(ef, func() lin.Form { return z.lenOf(el, d+1) })
 			}
 			if e, ef, ok := fieldLoad(x, z.frame); ok {
+				return z.in(ef, func() lin.Form { return z.lenOf(e, d+1) })
+			}
+			if e, ef, ok := cellLoadValue(x, z.frame); ok {
 				return z.in(ef, func() lin.Form { return z.lenOf(e, d+1) })
 			}
 		}
